@@ -15,6 +15,13 @@ Part 'metropolis' SplittingSimulation.get_next_error with numpy.random.choice re
                   choice(p=[1-q, q]); q == min(1, P(new)/P(prev)) with P from the reference channel
                   product; the returned log-probability is log P(returned error).
 
+Part 'large-n'    codes with n about 1000-1200 x {identity, all-X, a fixed mixed pattern, weight-1} x p in {0.3, 0.4} x
+                  2 directions x noise deformation off/on: the log form equals the reference SUM of logs
+                  (finite; the product itself underflows there, which is legitimate for the plain form only).
+Accepted branch   (b = 1) is run with two stub decoders: the zero correction (proposal kept whenever it is not
+                  a stabilizer) and the 'perfect' one returning the proposal itself (total error 0: the step must
+                  stay on the previous error and return log P(previous)).
+
 Reference channel (written from the definition, shares nothing with error_probability):
 (p_I, p_X, p_Y, p_Z)_undeformed = (1-p, p r_x, p r_y, p r_z) on every qubit; with a noise-side
 deformation D_i = code.get_deformation(coordinate_i, name, **kwargs):  p_def[sigma][i] = p_undef[D_i(sigma)].
@@ -77,7 +84,9 @@ BOUNDS = {
                      'denominator 2 + (1/3,1/3,1/3) + (.2,.3,.5)',
         'metropolis': 'n = 4: previous errors of weight <= 2; n = 5, 6: weight <= 1; larger codes: covering set '
                       '(identity, k-th allowed Pauli on every qubit, singles on 3 qubits), 3 directions; '
-                      'accepted branch: n = 4, identity previous error, p = 0.1',
+                      'accepted branch: n = 4, identity previous error, p = 0.1, zero-correction and perfect stub decoder',
+        'large-n': 'Toric2DCode(24,24) n=1152, RotatedPlanar2DCode(33,33) n=1089: 4 errors x p in {0.3,0.4} x '
+                   '(1/3,1/3,1/3),(.2,.3,.5) x deformation None/XZZX',
         'p': PS,
     },
     'thorough': {
@@ -86,7 +95,9 @@ BOUNDS = {
                      '(weight <= 1 + 27 pairs); denominator 3 + (.2,.3,.5) + (.1,.1,.8)',
         'metropolis': 'n = 4: ALL previous errors; n = 5: weight <= 2; n = 6: weight <= 1 (grid denominator 10 + '
                       '(1/3,1/3,1/3)); larger codes (the weight-2 members and Color3DCode): covering set, '
-                      'denominator 2 + (1/3,1/3,1/3) + (.2,.3,.5); accepted branch: identity previous error, p = 0.1',
+                      'denominator 2 + (1/3,1/3,1/3) + (.2,.3,.5); accepted branch: previous error of weight <= 1 (n = 4) / '
+                      'identity (n = 5, 6), p = 0.1, zero-correction and perfect stub decoder',
+        'large-n': 'as quick plus Toric2DCode(20,29) n=1160 and Planar2DCode(24,24) n=1105',
         'p': PS,
     },
 }
@@ -170,6 +181,11 @@ def large_codes(tier):
     return out
 
 
+LARGE_N = {'quick': [('Toric2DCode', [24, 24]), ('RotatedPlanar2DCode', [33, 33])],
+           'thorough': [('Toric2DCode', [24, 24]), ('RotatedPlanar2DCode', [33, 33]),
+                        ('Toric2DCode', [20, 29]), ('Planar2DCode', [24, 24])]}
+
+
 def _defs(name):
     return [None] + F.deformations(name)
 
@@ -224,7 +240,8 @@ def cases(tier, seed):
         for d in _defs(name):
             for dc, pc in _chunks(dirs, PS, nprev * 3 * n * 100e-6):
                 out.append({'part': 'metropolis', 'cls': name, 'size': size, 'deformation': d, 'dirs': dc,
-                            'ps': pc, 'prev': prev, 'accept_w': 0 if (tier == 'thorough' or n == 4) else -1,
+                            'ps': pc, 'prev': prev,
+                            'accept_w': (1 if n == 4 else 0) if tier == 'thorough' else (0 if n == 4 else -1),
                             'accept_ps': [0.1], 'cost': nprev * 3 * n * 1.5, 'n': n})
     for name, size, n, es in large_codes(tier):
         if tier == 'thorough' and es != 'w2' and n <= 64:
@@ -234,9 +251,14 @@ def cases(tier, seed):
                 out.append({'part': 'metropolis', 'cls': name, 'size': size, 'deformation': d, 'dirs': dc,
                             'ps': pc, 'prev': 'cover', 'accept_w': -1, 'accept_ps': [],
                             'cost': 14 * 3 * n * (1.5 + n / 25), 'n': n})
+    # ---- part large-n (product underflows, log form must not)
+    for name, size in LARGE_N[tier]:
+        for d in (None, ['XZZX', {}]):
+            out.append({'part': 'large-n', 'cls': name, 'size': size, 'deformation': d, 'dirs': [THIRD, GENERIC],
+                        'ps': [0.3, 0.4], 'cost': 1e9 + size[0] * size[1], 'n': 1000})
     # simplest first: small codes before large ones; within a code undeformed noise first, then
     # enum < lowweight < metropolis, then the cheaper chunk
-    order = {'enum': 0, 'lowweight': 1, 'metropolis': 2}
+    order = {'enum': 0, 'lowweight': 1, 'metropolis': 2, 'large-n': 3}
     out.sort(key=lambda c: (c['n'] > 6, c['n'] if c['n'] <= 6 else 0, c['cost'] if c['n'] > 6 else 0,
                             F.CLASSES.index(c['cls']), c['size'],
                             c['deformation'] is not None, order[c['part']], c['cost']))
@@ -504,6 +526,65 @@ def _eval_errors(case):
     return res
 
 
+# ----------------------------------------------------------------------------- part large-n
+
+TOL_LOGSUM = 1e-9        # sum of ~1200 logs of magnitude <= 3: absolute rounding ~1e-12 on |log P| >= 400
+
+
+def _eval_large_n(case):
+    code = F.get_class(case['cls'])(*case['size'])
+    n = code.n
+    d = case.get('deformation')
+    perms = _perms(code, d)
+    sigs = [('identity', (0,) * n), ('all-X', (1,) * n),
+            ('pattern', tuple((7 * i + i // 5 + (i * i) // 11) % 4 for i in range(n))),
+            ('weight-1', tuple(1 if i == n // 2 else 0 for i in range(n)))]
+    rec = _Rec(case, n)
+    res = {'evals': 0, 'nontrivial': 0, 'violations': rec.v, 'outcomes': [], 'samples': []}
+    ex = {'large_n_errors_checked': 0, 'large_n_plain_form_underflowed': 0}
+    for dr in case['dirs']:
+        r = _rvec(dr)
+        ryp = dr[1] > 0
+        em = _model(case, r)
+        for p in case['ps']:
+            ch = _channel(perms, r, p)
+            rec.channel_y = any(c[2] > 0 for c in ch)
+            for label, sig in sigs:
+                vec = _vec(sig, n)
+                if any(c[s] <= 0 for c, s in zip(ch, sig)):
+                    continue                                    # directions used here are interior: not reached
+                want = math.fsum(math.log(c[s]) for c, s in zip(ch, sig))
+                with np.errstate(divide='ignore', invalid='ignore', under='ignore'):
+                    lgot = float(em.error_probability(vec, code, p, log_output=True))
+                    got = float(em.error_probability(vec, code, p))
+                res['evals'] += 2
+                ex['large_n_errors_checked'] += 1
+                if want < -745.0:
+                    res['nontrivial'] += 1                      # the product is below the smallest double
+                detail = {'error': label, 'direction': list(r), 'p': p, 'got_log': repr(lgot),
+                          'reference_sum_of_logs': want, 'plain_form': got}
+                if not (lgot == lgot and math.isfinite(lgot) and abs(lgot - want) <= TOL_LOGSUM * abs(want)):
+                    rec.add('log-differs', 0 in sig, ryp, detail, error=label,
+                            product_underflows=bool(want < -745.0))
+                if got < 1e-300:
+                    ex['large_n_plain_form_underflowed'] += 1   # legitimate for the plain form when the true
+                    if got < 0 or want > -680.0:                # product is below ~1e-295
+                        rec.add('probability-differs', 0 in sig, ryp, detail, error=label)
+                elif not abs(math.log(got) - want) <= TOL_LOGSUM * max(1.0, abs(want)):
+                    rec.add('probability-differs', 0 in sig, ryp, detail, error=label)
+                if len(res['outcomes']) < 50:
+                    res['outcomes'].append('large-n|n%d|%s|%s|p%s|log%.0f|plain%s'
+                                           % (n, d[0] if d else '-', label, p, want, 'zero' if got == 0 else 'pos'))
+            if len(res['samples']) < 2:
+                res['samples'].append({'config': F.cfg_label({'cls': case['cls'], 'size': case['size'],
+                                                              'deformation': None}),
+                                       'noise_deformation': d, 'direction': list(r), 'p': p, 'error': label,
+                                       'reference_sum_of_logs': want, 'log_form': repr(lgot), 'plain_form': got})
+    ex.update(rec.counts)
+    res['extra'] = ex
+    return res
+
+
 # ----------------------------------------------------------------------------- part metropolis
 
 class _Unavailable(Exception):
@@ -520,6 +601,18 @@ class _StubDecoder:
 
     def decode(self, syndrome, **kw):
         return np.zeros(2 * self.n, dtype='uint')
+
+
+class _PerfectStubDecoder(_StubDecoder):
+    """returns the error it is told to return (the check sets it to the proposal: total error 0)"""
+    id = 'C18PerfectStubDecoder'
+
+    def __init__(self, n):
+        self.n = n
+        self.answer = np.zeros(2 * n, dtype='uint')
+
+    def decode(self, syndrome, **kw):
+        return self.answer.copy()
 
 
 def _cover_prevs(n, ch):
@@ -559,6 +652,8 @@ def _eval_metropolis(case):
           'proposals_not_offered_though_channel_positive': 0, 'accepted_branch_steps': 0,
           'acceptance_zero': 0, 'acceptance_one': 0}
     stub = _StubDecoder(n)
+    perfect = _PerfectStubDecoder(n)
+    ex['accepted_then_corrected_steps'] = 0
     st = {}
 
     def fake_choice(a, size=None, replace=True, p=None):
@@ -613,12 +708,18 @@ def _eval_metropolis(case):
                             want = min(1.0, p_new / p_prev)
                             hid = (0 in prev) or (0 in new)
                             both = w_prev <= case['accept_w'] and want > 0 and p in case['accept_ps']
-                            for b in ((0, 1) if both else (0,)):
+                            # b = 0: coin rejects; b = 1: coin accepts, zero-correction decoder;
+                            # b = 2: coin accepts, perfect decoder (the proposal is corrected: total error 0)
+                            for b in ((0, 1, 2) if both else (0,)):
                                 st.clear()
-                                st.update(q=q, pauli=PAULI[s], b=b)
+                                st.update(q=q, pauli=PAULI[s], b=min(b, 1))
+                                dec = stub
+                                if b == 2:
+                                    perfect.answer = _vec(new, n).astype('uint')
+                                    dec = perfect
                                 try:
                                     with np.errstate(divide='ignore', invalid='ignore'):
-                                        nxt, logp = sim.get_next_error(stub, p, pvec.copy())
+                                        nxt, logp = sim.get_next_error(dec, p, pvec.copy())
                                 except _Unavailable:
                                     ex['proposals_not_offered'] += 1
                                     if ch[q][s] > 0:
@@ -655,6 +756,24 @@ def _eval_metropolis(case):
                                                 dict(detail, branch='rejected', returned_error=_pstr(ret),
                                                      returned_log_probability=repr(float(logp)),
                                                      reference_log=repr(math.log(p_prev))))
+                                elif b == 2:
+                                    ex['accepted_then_corrected_steps'] += 1
+                                    ret = _sig_of(nxt, n)
+                                    if ret != tuple(prev):
+                                        rec.add('corrected-proposal-kept', hid, ryp,
+                                                dict(detail, branch='accepted-then-corrected',
+                                                     returned_error=_pstr(ret)))
+                                    if not _log_ok(float(logp), _ref_prob(ch, ret)):
+                                        rec.add('log-differs', (0 in ret), ryp,
+                                                dict(detail, branch='accepted-then-corrected',
+                                                     returned_error=_pstr(ret),
+                                                     returned_log_probability=repr(float(logp)),
+                                                     reference_log_of_returned_error=repr(
+                                                         math.log(_ref_prob(ch, ret)) if _ref_prob(ch, ret) > 0
+                                                         else -math.inf),
+                                                     reference_log_of_proposal=repr(
+                                                         math.log(p_new) if p_new > 0 else -math.inf)),
+                                                branch='accepted-then-corrected')
                                 else:
                                     ex['accepted_branch_steps'] += 1
                                     ret = _sig_of(nxt, n)
@@ -735,4 +854,6 @@ def _eval_metropolis(case):
 def eval_case(case):
     if case['part'] == 'metropolis':
         return _eval_metropolis(case)
+    if case['part'] == 'large-n':
+        return _eval_large_n(case)
     return _eval_errors(case)
